@@ -38,4 +38,20 @@ LEVEL = {
            "row, having delivered exactly the denotation of the valid prefix) and C16_bad_header_rejected (missing options row, "
            "unsupported physical type, version > 2, names < 8, tables > 4096 never yield an event). Two classes were genuine "
            "defects, repaired by fix: commits (triple outside a graph; datatype reference with a disabled table).",
+    "C06": "Theorems (for EVERY stream — any class, logical type, delimited flag, inferred or explicit flow, frame size — and every "
+           "input): C06_nothing_left_in_flow (a normal return of stream_frames leaves the flow empty), "
+           "C06_rows_independent_of_flow (the flow only decides where the row sequence is cut: rows, encoder state and outcome "
+           "are the same under any two flows), C06_no_empty_frame; the configuration lattice itself is pinned by "
+           "C13_infer_flow_table and the generated tables (tables_stream_new, tables_flow_mk). 'Parses back to the input' is "
+           "C01/C03's theorem; here it is the oracle. The full statement was false before the fix: commit (final flush).",
+    "C11": "Write side: C11_trace_faithful (the trace model replays the same run as the serializer model), "
+           "C11_pending_below_frame_size, C11_no_lookahead for Triple/QuadStream with a bounded flow (induction over the input). "
+           "Parse side: C10_events_prefix at frame boundaries (what is yielded before byte k+1 is requested is what the cut "
+           "stream yields). Known findings (not repaired): GraphStream fed from a quad generator reads ahead a whole graph run "
+           "(C11-graphs-lookahead); a BufferedReader over a non-seekable source is wrapped in a second BufferedReader and "
+           "over-reads (C11-double-buffer). The frame_size-ignored defect was repaired (fix: commit). Partial: real blocking.",
+    "C12": "In the model serialization is a function, so determinism is definitional; C12_isolation proves that two independent "
+           "state machines advanced under ANY schedule produce what they produce alone. Whether Python's steps act on one "
+           "component only is established by the byte-exact correspondence under adversarial conditions (abandoned streams, "
+           "interleaved generators, threads, hash seeds) and a static scan for mutation of shared objects. Partial.",
 }
